@@ -45,6 +45,27 @@ def op_grammar(rng):
     return 'grammar g; %s start = e; e = %s | "(" e ")" | "i";' % (dirs, alts), ops, levels
 
 
+def rule_handle_grammar(rng):
+    """operator grammars whose directives are (partly) rule handles: a rule handle gives its level to the reduction by that
+    production only - the shift of the operator needs a terminal handle of its own"""
+    ops = rng.sample(["+", "-", "*", "/", "^"], rng.choice([1, 2, 3]))
+    dirs = []
+    for o in ops:
+        a = rng.choice(["@left", "@right"])
+        k = rng.random()
+        if k < 0.4:
+            dirs.append('%s "%s" <e = e "%s" e>;' % (a, o, o))        # both handles: resolved
+        elif k < 0.7:
+            dirs.append('%s "%s";' % (a, o))                            # terminal handle only: resolved
+        else:
+            dirs.append('%s <e = e "%s" e>;' % (a, o))                  # rule handle only: the conflict stays
+    if rng.random() < 0.3:
+        dirs.append('@right <e = "-" e>;') if "-" in ops else None
+    rng.shuffle(dirs)
+    alts = " | ".join('e "%s" e' % o for o in ops) + ((' | "-" e') if any("<e = \"-\" e>" in d for d in dirs) else "")
+    return 'grammar g; %s start = e; e = %s | "i";' % (" ".join(d for d in dirs if d), alts)
+
+
 def random_grammar(rng):
     nts = ["start"] + rng.sample(["a", "b", "c", "d"], rng.choice([1, 2, 3]))
     ts = rng.sample(['"x"', '"y"', '"z"', '"w"'], rng.choice([2, 3, 4]))
@@ -79,6 +100,53 @@ def with_directives(rng, body, handles, extra):
         grp, pool = pool[:k], pool[k:]
         dirs.append("%s %s;" % (rng.choice(["@left", "@right", "@left", "@right", "@none"]), " ".join(grp)))
     return "grammar g; %s %s" % (" ".join(dirs), body)
+
+
+DIRECTIVE = re.compile(r'@(left|right|none)((?:\s+(?:"(?:[^"\\]|\\.)*"|<[^>]*>|[A-Z][A-Z0-9_]*))+)\s*;')
+HANDLE = re.compile(r'"(?:[^"\\]|\\.)*"|<[^>]*>|[A-Z][A-Z0-9_]*')
+
+
+def written_levels(text):
+    """the precedence levels as the directives of a plain-BNF specification text state them: [(assoc, {handle})], a handle
+    being ('t', terminal name) or ('p', head, (body symbols as ('t', name) / ('n', name)))"""
+    def sym(x):
+        if x.startswith('"'):
+            return ("t", x[1:-1])
+        return ("t", x) if x[0].isupper() else ("n", x)
+    out = []
+    for m in DIRECTIVE.finditer(text):
+        hs = set()
+        for h in HANDLE.findall(m.group(2)):
+            if h.startswith("<"):
+                head, _, body = h[1:-1].partition("=")
+                hs.add(("p", head.strip(), tuple(sym(x) for x in re.findall(r'"(?:[^"\\]|\\.)*"|[A-Za-z_][A-Za-z0-9_]*', body))))
+            else:
+                hs.add(sym(h))
+        out.append(({"none": 0, "left": 1, "right": 2}[m.group(1)], hs))
+    return out
+
+
+def dumped_levels(g, text):
+    """the levels of Spec.Precedences as the harness prints them, in the same terms (non-terminals are numbered in name order)"""
+    nts = sorted(set(re.findall(r'(?:^|;)\s*([a-z][a-z0-9_]*)\s*=', text.split(";", 1)[1] if text.startswith("grammar") else text)))
+    def sym(k, i):
+        return ("t", g["tnames"][i]) if k == "t" else ("n", nts[i] if i < len(nts) else "?%d" % i)
+    out = []
+    for l in g["fields"].get("levels", "").split(";"):
+        if not l:
+            continue
+        a, _, hs = l.partition(":")
+        handles = set()
+        for h in hs.split(","):
+            if not h:
+                continue
+            if h[0] == "t":
+                handles.add(("t", g["tnames"][int(h[1:])]))
+            else:
+                head, body = g["prods"][int(h[1:])]
+                handles.add(("p", nts[head] if head < len(nts) else "?", tuple(sym(k, i) for k, i in body)))
+        out.append((int(a), handles))
+    return out
 
 
 def parse_lalr(line):
@@ -232,28 +300,42 @@ def run(ctx):
             return ctx.finish(LEVEL, {"evaluations": 0, "distinct_nontrivial": 0, "samples": [], "explanation": "aborted"}, [])
     rng = ctx.rng
     # strict: every conflict of the family is a genuine ambiguity (or there is none), so the table must accept exactly L(G)
-    cases = [(t, None, True) for t in TEXTBOOK]
+    # last component: well-formed by construction (spec.Parse must not reject it)
+    cases = [(t, None, True, True) for t in TEXTBOOK]
     for _ in range(150 if quick else 1500):
         t, ops, levels = op_grammar(rng)
-        cases.append((t, (ops, levels), True))
+        cases.append((t, (ops, levels), True, True))
     for _ in range(500 if quick else 6000):
-        cases.append((random_grammar(rng), None, True))
+        cases.append((random_grammar(rng), None, True, False))
     for _ in range(200 if quick else 2000):
         body, hs, ex = rng.choice(NOT_SLR)
-        cases.append((with_directives(rng, body, hs, ex), None, True))      # LALR(1) without directives: they must change nothing
+        cases.append((with_directives(rng, body, hs, ex), None, True, True))      # LALR(1) without directives: they must change nothing
     for _ in range(200 if quick else 2000):
         t = random_grammar(rng)[len("grammar g; "):]
-        cases.append((with_directives(rng, t, ['"x"', '"y"', '"z"', '"w"'], []), None, False))
-    impl = ctx.run_impl_par("lalr", [hx(t.encode()) for t, _, _ in cases], timeout=900, isolate=True)
+        cases.append((with_directives(rng, t, ['"x"', '"y"', '"z"', '"w"'], []), None, False, False))
+    for _ in range(100 if quick else 1000):
+        cases.append((rule_handle_grammar(rng), None, True, True))
+    impl = ctx.run_impl_par("lalr", [hx(t.encode()) for t, _, _, _ in cases], timeout=900, isolate=True)
     model = ctx.run_model_par("lalr", [l.split(" ", 1)[1] if " " in l else "nt=0 nnt=0 start=0 prods= levels=" for l in impl])
     stats = {"accepted": 0, "rejected_conflict": 0, "rejected_earlier": 0, "tables_isomorphic_to_reference": 0, "tables_well_formed": 0, "sentences_compared": 0, "expressions_compared": 0, "known_order_dependence": 0}
     distinct = set()
     ncorr = 0
-    for (text, opinfo, strict), i, m in zip(cases, impl, model):
+    for (text, opinfo, strict, wellformed), i, m in zip(cases, impl, model):
         g = parse_lalr(i)
         if g["kind"] in ("PARSEERR",):
             stats["rejected_earlier"] += 1
+            if wellformed:
+                ctx.add_violation("a well-formed specification (an LALR(1) grammar, or one whose conflicts its directives cover) is rejected before the table is built",
+                                  {"input": text, "input_hex": hx(text.encode()), "implementation": decode_hex_fields(i)[:600]})
             continue
+        if "@" in text and g["kind"] in ("OK", "CONFLICT") and "{" not in text and "[" not in text and "(" not in text:
+            # what is handed to the table builder must be what the directives say (plain-BNF families only: no synthesised names)
+            stats["directive_sets_compared"] = stats.get("directive_sets_compared", 0) + 1
+            wl, dl = written_levels(text), dumped_levels(g, text)
+            if wl != dl:
+                ctx.add_violation("the precedence levels handed to the table builder are not the ones the directives state",
+                                  {"input": text, "input_hex": hx(text.encode()), "written": repr(wl)[:800], "handed_to_the_builder": repr(dl)[:800]})
+                continue
         if g["kind"] == "PANIC" and any(f.get("explains_panic_frame") and f["explains_panic_frame"] in decode_hex_fields(i) for f in known_for("C06")):
             stats["crashes_explained_by_known_findings"] = stats.get("crashes_explained_by_known_findings", 0) + 1
             continue
